@@ -23,6 +23,17 @@ try:
     a = sh(["git", "-C", wt, "apply", "--check", patch])
     res["applies"] = a.returncode == 0
     if not res["applies"]:
+        # later fix commits moved the context: merge the patch three-way (the blobs it was made from are in the repository);
+        # the merged patch is then used in place of the stored one
+        m = sh(["git", "-C", wt, "apply", "--3way", patch])
+        d = sh(["git", "-C", wt, "diff", "HEAD"])
+        sh(["git", "-C", wt, "reset", "-q", "--hard", "HEAD"])
+        if m.returncode == 0 and "<<<<<<<" not in d.stdout and d.stdout.strip():
+            merged = os.path.join(tempfile.gettempdir(), "seed-merged-%d.diff" % os.getpid())
+            open(merged, "w").write(d.stdout)
+            patch = merged
+            res["applies"], res["merged_three_way"] = True, True
+    if not res["applies"]:
         print(json.dumps(res)); sys.exit(1)
     # demonstration placement
     demo = None
